@@ -16,7 +16,7 @@
 From Coq Require Import List Arith Permutation Floats ZArith QArith Qcanon.
 Require String.
 From TK Require Import Mat_Sums Mat_Core Mat_Qc Landmark_Model Landmark_Float Landmark_Spec
-  Landmark_Proof_Trace Landmark_Proof_Euclid Landmark_Proof_Main Landmark_Proof_Ratio Landmark_Proof_Exec Landmark_Proof_Float
+  Landmark_Proof_Trace Landmark_Proof_Euclid Landmark_Proof_Main Landmark_Proof_Ratio Landmark_Proof_Unique Landmark_Proof_Exec Landmark_Proof_Float
   Landmark_Proof_Examples.
 Import ListNotations.
 Import String.StringSyntax.
@@ -223,8 +223,8 @@ Proof. exact lisomap_runs. Qed.
 (* T13 ratio = 1, Landmark MDS.  With every sample a landmark, in ANY order, and a symmetric
    callback: (1) the output is literally MDS's output for the un-permuted solver answer
    Wp a = W (position of a); (2) if the answer met the solver contract for Landmark MDS's matrix
-   then Wp meets it for MDS's matrix.  PARTIAL: "coincide up to column signs" additionally needs
-   uniqueness of unit eigenvectors for simple eigenvalues, which is not formalised here. *)
+   then Wp meets it for MDS's matrix.  PARTIAL only in that "coincide up to column signs" needs
+   uniqueness of unit eigenvectors for simple eigenvalues: that step is T13' (ratio_one_lmds). *)
 Theorem ratio_one_lmds_partial : forall (F : Type) (Fo : FieldOps F) (Ff : IsField F)
     (N d : nat) (keep : nat -> bool) (lm : list nat) (dist W : mat F) (w s : vec F)
     (ws : list (nat * vec F)),
@@ -244,6 +244,39 @@ Example ratio_one_lmds_partial_nonvacuous :
   (forall a b, a < 6 -> b < 6 -> ex_dist a b = ex_dist b a) /\
   exists ws, lmds_embed 6 1 keep_all ex_perm ex_dist ex_W ex_w ex_s = LOk ws.
 Proof. exact ratio_one_nonvacuous. Qed.
+
+(* T13' ratio = 1, Landmark MDS, FULL: over a field with decidable equality (Qc has it), every
+   sample a landmark (any order), symmetric callback; the landmark run received ANY answer meeting
+   the solver contract on its d selected pairs; the MDS run a full orthonormal eigendecomposition
+   with the same selected eigenvalues, each of them SIMPLE; same sqrt values.  Then the Landmark
+   MDS embedding equals the MDS embedding up to one sign per column. *)
+Theorem ratio_one_lmds : forall (F : Type) (Fo : FieldOps F) (Ff : IsField F)
+    (Feq_dec : forall x y : F, {x = y} + {x <> y})
+    (N d : nat) (keep : nat -> bool) (lm : list nat) (dist W W0 : mat F) (w w0 s : vec F)
+    (ws : list (nat * vec F)) (Y0 : mat F),
+  Permutation lm (seq 0 N) ->
+  (forall a b, a < N -> b < N -> dist a b = dist b a) ->
+  lmds_embed N d keep lm dist W w s = LOk ws ->
+  lm_eig_contract N d (lmds_matrix lm dist) (sel_vecs N d W) (sel_vals N d w) ->
+  mds_embed N d W0 w0 s = LOk Y0 ->
+  full_eig N (mds_matrix_full N dist) W0 w0 ->
+  (forall c, c < d -> sel_vals N d w c = sel_vals N d w0 c) ->
+  (forall c j, c < d -> j < N -> j <> N - d + c -> w0 j <> w0 (N - d + c)) ->
+  exists Y : mat F,
+    (forall a, a < N -> last_write ws a = Some (mrow Y a)) /\
+    same_upto_sign N d Y Y0.
+Proof. exact @ratio_one_lmds_upto_sign_lemma. Qed.
+Print Assumptions ratio_one_lmds.
+
+Example ratio_one_lmds_nonvacuous :
+  Permutation ex4_lm (seq 0 4) /\
+  (forall a b, a < 4 -> b < 4 -> ex4_dist a b = ex4_dist b a) /\
+  (exists ws, lmds_embed 4 1 keep_all ex4_lm ex4_dist ex4_W ex4_w0 ex_s = LOk ws) /\
+  lm_eig_contract 4 1 (lmds_matrix ex4_lm ex4_dist) (sel_vecs 4 1 ex4_W) (sel_vals 4 1 ex4_w0) /\
+  (exists Y0, mds_embed 4 1 ex4_W0 ex4_w0 ex_s = LOk Y0) /\
+  full_eig 4 (mds_matrix_full 4 ex4_dist) ex4_W0 ex4_w0 /\
+  (forall c j, c < 1 -> j < 4 -> j <> 4 - 1 + c -> ex4_w0 j <> ex4_w0 (4 - 1 + c)).
+Proof. exact ratio_one_upto_sign_nonvacuous. Qed.
 
 (* T14 ratio = 1, Landmark Isomap (dense).  With symmetric geodesics G and every sample a
    landmark the matrix B is Isomap's matrix with permuted rows; if the un-permuted selected
@@ -265,6 +298,43 @@ Theorem ratio_one_lisomap_partial : forall (F : Type) (Fo : FieldOps F) (Ff : Is
     forall j c, j < N -> c < d -> Y j c = scale_by Up s j c.
 Proof. exact @ratio_one_lisomap_partial_lemma. Qed.
 Print Assumptions ratio_one_lisomap_partial.
+
+(* T14' ratio = 1, Landmark Isomap (dense), FULL under explicit spectral hypotheses: symmetric
+   geodesics, every sample a landmark; the landmark run received any answer meeting the contract for
+   B B^T; Isomap a full orthonormal eigendecomposition (W0, w0) of its matrix; each eigenvalue the
+   landmark method selected is the SQUARE of the one Isomap selected and NO OTHER eigenvalue of
+   Isomap's matrix has that square (this is what fails in finding F44: a negative eigenvalue of
+   larger magnitude); q = s = sqrt nu <> 0.  Then the two embeddings agree up to column signs. *)
+Theorem ratio_one_lisomap : forall (F : Type) (Fo : FieldOps F) (Ff : IsField F)
+    (Feq_dec : forall x y : F, {x = y} + {x <> y})
+    (N d : nat) (lm : list nat) (G W W0 : mat F) (w w0 q s : vec F) (Y Y0 : mat F),
+  Permutation lm (seq 0 N) -> of_nat N <> 0%F -> @two F Fo <> 0%F ->
+  (forall x y, x < N -> y < N -> G x y = G y x) ->
+  lisomap_embed N N d (fun a b => G (lmk lm a) b) W w q = LOk Y ->
+  lm_eig_contract N d (lisomap_sym N (lisomap_matrix N N (fun a b => G (lmk lm a) b)))
+                  (sel_vecs N d W) (sel_vals N d w) ->
+  mds_embed N d W0 w0 s = LOk Y0 ->
+  full_eig N (isomap_matrix N G) W0 w0 ->
+  (forall c, c < d -> sel_vals N d w c = (sel_vals N d w0 c * sel_vals N d w0 c)%F) ->
+  (forall c j, c < d -> j < N -> j <> N - d + c ->
+      (w0 j * w0 j)%F <> (w0 (N - d + c)%nat * w0 (N - d + c)%nat)%F) ->
+  (forall c, c < d -> (s c * s c)%F = sel_vals N d w0 c /\ q c = s c /\ s c <> 0%F) ->
+  same_upto_sign N d Y Y0.
+Proof. exact @ratio_one_lisomap_upto_sign_lemma. Qed.
+Print Assumptions ratio_one_lisomap.
+
+Example ratio_one_lisomap_hypotheses_satisfiable :
+  Permutation ex4_lm (seq 0 4) /\ @of_nat Qc _ 4 <> 0%F /\ @two Qc _ <> 0%F /\
+  (forall a b, a < 4 -> b < 4 -> ex4_dist a b = ex4_dist b a) /\
+  (exists Y, lisomap_embed 4 4 1 ex4_G ex4_W ex4_w2 ex_s = LOk Y) /\
+  lm_eig_contract 4 1 (lisomap_sym 4 (lisomap_matrix 4 4 ex4_G)) (sel_vecs 4 1 ex4_W) (sel_vals 4 1 ex4_w2) /\
+  (exists Y0, mds_embed 4 1 ex4_W0 ex4_w0 ex_s = LOk Y0) /\
+  full_eig 4 (isomap_matrix 4 ex4_dist) ex4_W0 ex4_w0 /\
+  (forall c, c < 1 -> sel_vals 4 1 ex4_w2 c = (sel_vals 4 1 ex4_w0 c * sel_vals 4 1 ex4_w0 c)%F) /\
+  (forall c j, c < 1 -> j < 4 -> j <> 4 - 1 + c ->
+      (ex4_w0 j * ex4_w0 j)%F <> (ex4_w0 (4 - 1 + c)%nat * ex4_w0 (4 - 1 + c)%nat)%F) /\
+  (forall c, c < 1 -> (ex_s c * ex_s c)%F = sel_vals 4 1 ex4_w0 c /\ ex_s c = ex_s c /\ ex_s c <> 0%F).
+Proof. exact ratio_one_lisomap_nonvacuous. Qed.
 
 Local Open Scope string_scope.
 (* T10 bounds, CURRENT code (fix F21, b4b2738): a request accepted by the constructor and by
